@@ -69,6 +69,8 @@ def main():
         for k in ("int", "float", "dec"):
             for _ in range(reps):
                 cases.append({"op": "pow", "l": qty(k), "r": n})
+                # an integer power that is first asked for as a float and as a Decimal (refused) and then as the integer it is
+                cases.append({"op": "pow", "l": qty(k), "r": rng.choice([5, 6, 7, -5, -6, 9]), "refused_first": True})
                 q = qty(k)
                 if rng.random() < 0.6 and n not in (0,):
                     q["u"] = [[p, nm, e * abs(n)] for p, nm, e in q["u"]]
